@@ -57,6 +57,7 @@ type FuncContract struct {
 	LocksChange    bool
 	ClausePropsEns map[int][]string
 	LocalEns       map[int]bool // postconditions that callers do not assume
+	AtWait         []string     // assertions at every blocking point (select / channel receive) of the function
 }
 
 type PredDef struct {
@@ -156,7 +157,7 @@ func pkgPathOf(root, file string) string {
 }
 
 var clauseKeywords = map[string]bool{
-	"props": true, "requires": true, "ensures": true, "modifies": true, "loop": true, "arith": true, "theory": true,
+	"props": true, "requires": true, "ensures": true, "modifies": true, "loop": true, "arith": true, "theory": true, "atwait": true,
 	"nosafety": true, "role": true, "entry": true, "trusted": true, "witness": true, "lemma": true,
 	"exitlocks": true, "replay": true, "waitinv": true, "lockschange": true, "like": true, "noframe": true, "atcall": true, "invariant": true, "nocallpre": true, "assumeafter": true, "reachable": true, "emits": true,
 }
@@ -343,6 +344,9 @@ func (cs *Contracts) parseFile(root, file string) error {
 			cur.Arith = rest
 		case "theory":
 			cur.Theory = rest
+		case "atwait":
+			cur.AtWait = append(cur.AtWait, rest)
+			lastClause = &cur.AtWait[len(cur.AtWait)-1]
 		case "nosafety":
 			cur.NoSafety = true
 		case "role":
